@@ -279,3 +279,70 @@ Qed.
 Lemma dmx_history ops input :
   dmx_frame (dmx_run (ops ++ [OpText input])) = dmx_set_from_string input.
 Proof. unfold dmx_run. rewrite fold_left_app. cbn [fold_left]. apply dmx_text_step_frame. Qed.
+
+(* ---- bytes >= 0x80 (and any other byte outside the grammar) are never accepted ------------------------------ *)
+Lemma hex_form_ascii t c : hex_form t -> In c t -> c < 128.
+Proof.
+  intros (_ & H) Hc. rewrite forallb_forall in H. specialize (H c Hc). apply is_hex_range in H. lia.
+Qed.
+Lemma split_on_covers p c s : forall cur, In c s \/ In c cur -> p c = false ->
+  exists tok, In tok (split_on p s cur) /\ In c tok.
+Proof.
+  induction s as [|x s IH]; intros cur Hin Hp; cbn [split_on].
+  - destruct Hin as [[]|Hin]. exists (rev cur). split; [left; reflexivity|apply in_rev in Hin; exact Hin].
+  - destruct (p x) eqn:Ex.
+    + destruct Hin as [[->|Hin]|Hin].
+      * congruence.
+      * destruct (IH [] (or_introl Hin) Hp) as (tok & H1 & H2). exists tok. split; [right; exact H1|exact H2].
+      * exists (rev cur). split; [left; reflexivity|apply in_rev in Hin; exact Hin].
+    + apply IH; [|exact Hp]. destruct Hin as [[->|Hin]|Hin]; [right; left; reflexivity|left; exact Hin|right; right; exact Hin].
+Qed.
+Lemma dec_number_ascii p neg m c : dec_number p neg m -> In c p -> c < 128.
+Proof.
+  intros (ws & sg & ds & -> & Hws & Hsg & _ & Hds & _) Hin.
+  rewrite forallb_forall in Hws, Hds.
+  apply in_app_or in Hin as [H|H]; [apply Hws in H; unfold is_space in H; lia|].
+  apply in_app_or in H as [H|H]; [|apply Hds in H; unfold is_digit in H; lia].
+  destruct Hsg as [[-> _]|[[-> _]|[-> _]]]; cbn in H; lia.
+Qed.
+
+Lemma high_byte_rejected t c : In c t -> 128 <= c ->
+  hex_to_u64 t = None /\ hex_to_u32 t = None /\ hex_to_u16 t = None /\ hex_to_u8 t = None /\
+  hex_to_i64 t = None /\ hex_to_i32 t = None /\ hex_to_i16 t = None /\ hex_to_i8 t = None /\
+  uid_from_string t = None /\ mac_from_string t = None /\
+  string_to_u64 true t = None /\ string_to_i64 true t = None /\
+  string_to_bool_tolerant t = None.
+Proof.
+  intros Hin Hc.
+  assert (forall P : Prop, (hex_form t -> P) -> hex_form t -> False) as Hhex.
+  { intros P _ Hf. pose proof (hex_form_ascii t c Hf Hin). lia. }
+  repeat split; apply not_some_none; intros x Hx.
+  - apply hex_to_u64_spec in Hx. destruct Hx as (Hf & _). pose proof (hex_form_ascii t c Hf Hin). lia.
+  - apply hex_to_u32_spec in Hx. destruct Hx as (Hf & _). pose proof (hex_form_ascii t c Hf Hin). lia.
+  - apply hex_to_u16_spec in Hx. destruct Hx as (Hf & _). pose proof (hex_form_ascii t c Hf Hin). lia.
+  - apply hex_to_u8_spec in Hx. destruct Hx as (Hf & _). pose proof (hex_form_ascii t c Hf Hin). lia.
+  - apply hex_to_i64_spec in Hx. destruct Hx as (Hf & _). pose proof (hex_form_ascii t c Hf Hin). lia.
+  - apply hex_to_i32_spec in Hx. destruct Hx as (Hf & _). pose proof (hex_form_ascii t c Hf Hin). lia.
+  - apply hex_to_i16_spec in Hx. destruct Hx as (Hf & _). pose proof (hex_form_ascii t c Hf Hin). lia.
+  - apply hex_to_i8_spec in Hx. destruct Hx as (Hf & _). pose proof (hex_form_ascii t c Hf Hin). lia.
+  - destruct x as [e d]. apply uid_exact in Hx. destruct Hx as (t0 & t1 & -> & _ & _ & F0 & F1 & _).
+    apply in_app_or in Hin as [H|H]; [pose proof (hex_form_ascii _ c F0 H); lia|].
+    cbn [app] in H. destruct H as [H|H]; [lia|pose proof (hex_form_ascii _ c F1 H); lia].
+  - apply mac_exact in Hx. destruct Hx as (_ & HF).
+    assert (mem_char [58; 46] c = false) as Hp by (unfold mem_char; cbn; lia).
+    destruct (split_on_covers (mem_char [58; 46]) c t [] (or_introl Hin) Hp) as (tok & Ht & Hct).
+    fold (string_split [58; 46] t) in Ht.
+    assert (hex_form tok) as Hf.
+    { clear - HF Ht. induction HF as [|a b l l' Hab _ IH]; [destruct Ht|].
+      destruct Ht as [<-|Ht]; [apply Hab|apply IH, Ht]. }
+    pose proof (hex_form_ascii _ c Hf Hct). lia.
+  - apply string_to_u64_spec in Hx. destruct Hx as (rest & (p & -> & Hp & _) & _ & Hr).
+    rewrite (Hr eq_refl), app_nil_r in Hin. pose proof (dec_number_ascii _ _ _ c Hp Hin). lia.
+  - apply string_to_i64_spec in Hx. destruct Hx as (neg & m & rest & (p & -> & Hp & _) & _ & _ & Hr).
+    rewrite (Hr eq_refl), app_nil_r in Hin. pose proof (dec_number_ascii _ _ _ c Hp Hin). lia.
+  - apply string_to_bool_tolerant_spec in Hx.
+    assert (In c (to_lower t)) as H0.
+    { unfold to_lower. apply in_map_iff. exists c. split; [unfold lower_char; break_if; lia|exact Hin]. }
+    destruct Hx as [[H _]|[H _]]; unfold true_words, false_words in H; cbn [In] in H;
+      repeat (destruct H as [H|H]; [rewrite <- H in H0; cbn in H0; lia|]); contradiction.
+Qed.
